@@ -40,11 +40,12 @@ def repo(draw, portable=False, full_skeleton=False, ignored_dirs=True,
         for p in pkgs:
             base = f'{c}/{p}'
             neb = draw(st.sampled_from([0, 1, 1, 2, 3]
-                                       if not full_skeleton else [1, 1, 2, 3]))
+                                       if not full_skeleton
+                                       else [0, 1, 1, 1, 2, 3]))
             for v in range(neb):
                 files[f'{base}/{p}-{v}.{draw(st.integers(0, 9))}.ebuild'] = \
                     'EAPI=7\n' + draw(content)
-            if draw(st.integers(0, 3)) != 0:
+            if draw(st.integers(0, 3)) != 0 or (full_skeleton and neb == 0):
                 files[f'{base}/metadata.xml'] = '<pkgmetadata/>' \
                     + draw(content)
             is_pkg = neb > 0 or f'{base}/metadata.xml' in files
